@@ -171,13 +171,13 @@ fn c05_q_hdr_lookup_n2() {
 }
 #[kani::proof]
 #[kani::unwind(6)]
-fn c05_q_hdr_lookup_n3() {
+fn c05_t_hdr_lookup_n3() {
     hdr_lookup(3, false)
 }
 #[kani::proof]
 #[kani::unwind(6)]
-fn c05_q_hdr_lookup_n3_twin() {
-    hdr_lookup(3, true)
+fn c05_q_hdr_lookup_n2_twin() {
+    hdr_lookup(2, true)
 }
 #[kani::proof]
 #[kani::unwind(7)]
@@ -216,7 +216,7 @@ fn v4_cie_fde() -> [u8; 39] {
 
 #[kani::proof]
 #[kani::unwind(10)]
-fn c05_q_debug_frame_fde_fields_and_contains() {
+fn c05_t_debug_frame_fde_fields_and_contains() {
     let buf = v4_cie_fde();
     let mut section = DebugFrame::from(FixLeb::<LittleEndian, 1>::new(&buf[..], LittleEndian));
     section.set_address_size(2); // must be overridden by the CIE's own address_size field
@@ -237,7 +237,7 @@ fn c05_q_debug_frame_fde_fields_and_contains() {
 
 #[kani::proof]
 #[kani::unwind(10)]
-fn c05_q_debug_frame_entries_iteration() {
+fn c05_t_debug_frame_entries_iteration() {
     let buf = v4_cie_fde();
     let mut section = DebugFrame::from(FixLeb::<LittleEndian, 1>::new(&buf[..], LittleEndian));
     section.set_address_size(8);
